@@ -538,7 +538,83 @@ func ruleEval(c *Ctx, mode string) *RuleResult {
 				}
 			}
 		}
-		report("ASTComparator", problems, nruns, npaths, "both operands evaluated against the current node; ==/!= boolean for every kind pair and never equal across kinds; ordering comparators null unless both operands are numbers")
+		// order hypothesis: the left operand's number is below / equal to / above the right one's
+		if mode == "json" {
+			for _, tok := range []string{"tLT", "tLTE", "tGT", "tGTE"} {
+				for _, rel := range []int{-1, 0, 1} {
+					nruns++
+					rel := rel
+					relName := map[int]string{-1: "left < right", 0: "left == right", 1: "left > right"}[rel]
+					x := newX(fmt.Sprintf("comparator %s on two numbers with %s", tok, relName))
+					// the operand's side is read off the node argument (child 0 / child 1), not the call order
+					x.hyp = func(x *Exec, callee *ssa.Function, call *ssa.Call, args []AV, p pathInfo) []hypOutcome {
+						side := prov("operand?")
+						for ai, av := range args {
+							if c.isASTNode(callee.Params[ai].Type()) {
+								switch av.what {
+								case "node child(0)":
+									side = "operandL"
+								case "node child(1)":
+									side = "operandR"
+								}
+							}
+						}
+						return []hypOutcome{{res: AV{k: 'I', atoms: ANum, prov: side}, err: AV{k: 'E', tri: 1}}}
+					}
+					x.ord = func(a, b prov) (int, bool) {
+						switch {
+						case a == "operandL" && b == "operandR":
+							return rel, true
+						case a == "operandR" && b == "operandL":
+							return -rel, true
+						case a == b && (a == "operandL" || a == "operandR"):
+							return 0, true
+						}
+						return 0, false
+					}
+					h := newHeap()
+					node := x.nodeAV("ASTComparator")
+					node.agg.fields[fValue] = AV{k: 'I', atoms: AOther, what: tok, n: c.tok(tok), nk: true}
+					var outs []evalOutcome
+					x.run(c.A.Exec, []AV{{k: 'P', tri: 2, what: "interp"}, node, valueAV(AObjN)}, h, pathInfo{}, func(rets []AV, h2 *Heap, p pathInfo, fin *frame) {
+						if len(rets) == 2 {
+							outs = append(outs, evalOutcome{ret: rets[0], err: rets[1], path: p, heap: h2})
+						}
+					})
+					npaths += len(outs)
+					var want bool
+					switch tok {
+					case "tLT":
+						want = rel < 0
+					case "tLTE":
+						want = rel <= 0
+					case "tGT":
+						want = rel > 0
+					case "tGTE":
+						want = rel >= 0
+					}
+					wantA := ABoolF
+					if want {
+						wantA = ABoolT
+					}
+					nsucc := 0
+					for _, o := range outs {
+						if !o.isSucc() {
+							continue
+						}
+						nsucc++
+						ra, _, _ := retAtoms(o)
+						if ra != wantA {
+							problems = append(problems, fmt.Sprintf("%s with %s yields %s, must be %s", tok, relName, ra, wantA))
+						}
+					}
+					if nsucc == 0 {
+						problems = append(problems, fmt.Sprintf("%s with %s: no success return", tok, relName))
+					}
+				}
+			}
+		}
+		report("ASTComparator", problems, nruns, npaths, "both operands evaluated against the current node; ==/!= boolean for every kind pair and never equal across kinds; ordering comparators null unless both operands are numbers, and under each of the three orderings of two numbers every ordering comparator yields exactly its relation")
 	}
 
 	// ---- projections: per kind of the left-hand side's result
